@@ -6,8 +6,11 @@ extern crate alloc;
 pub mod kit;
 pub mod state;
 
+pub mod oracle;
+
 pub mod h_c11;
 pub mod h_probe;
+pub mod ops_timer;
 
 /// Declares the harness table. Under Kani every entry becomes a proof harness
 /// (the `stubbed` ones with the `Broadcasts` contract stubs of DESIGN §3.5);
@@ -64,6 +67,20 @@ macro_rules! harnesses {
 harnesses! {
     plain: [ (h_probe::zz_smoke, 2) ],
     stubbed: [
-        (h_c11::c11_timeout_iff, 10),
+        (h_c11::c11_timeout_iff, 7),
+        (ops_timer::c13_stale_probe, 7),
+        (ops_timer::c13_stale_indirect, 7),
+        (ops_timer::c13_stale_suspect, 7),
+        (ops_timer::c13_stale_announce, 7),
+        (ops_timer::c13_stale_gossip, 7),
+        (ops_timer::c13_stale_announce_down, 7),
+        (ops_timer::t_probe_k2, 7),
+        (ops_timer::t_probe_k3, 7),
+        (ops_timer::t_indirect_k2, 7),
+        (ops_timer::t_indirect_k3, 7),
+        (ops_timer::t_remove, 7),
+        (ops_timer::t_announce, 7),
+        (ops_timer::t_gossip, 7),
+        (ops_timer::t_announce_down, 7),
     ]
 }
